@@ -30,7 +30,7 @@ PRELUDE_LINES = c08_gen.PRELUDE.count('\n')
 MAX_STORED_FAILS = 40
 NL = 7   # driver requests per case
 NFR = 7  # booleans answered by c08.frag
-FREES_CLASSES = ['harmfulLeaks', 'classShadow', 'globalBelow', 'nonlocalBelow']
+FREES_CLASSES = ['harmfulLeaks', 'classShadow', 'globalBelow']
 
 
 class Case(object):
@@ -257,6 +257,24 @@ def static_oracle(p):
     return obs
 
 
+def in_revisited_iterable(p, nid, name):
+    """Known deviation class `compIterRevisit` (decided on the tree): the annotated node is an expression inside the
+    iterable of a `for` clause of a comprehension whose target is `name`.  visit_comprehension visits the iterable,
+    then the target, then generic_visit visits the iterable AGAIN — now with the target hidden — and the second
+    visit overwrites the annotations of the scope-carrying expressions (lambdas) inside the iterable."""
+    node = p.ser.nodes.get(nid) if hasattr(p.ser.nodes, 'get') else p.ser.nodes[nid]
+    if node is None or isinstance(node, ast.stmt):
+        return False
+    par = c08_sym.parents_map(p.fn)
+    child, q = node, par.get(id(node))
+    while q is not None:
+        if isinstance(q, ast.comprehension) and child is q.iter and \
+                name in {n.id for n in ast.walk(q.target) if isinstance(n, ast.Name)}:
+            return True
+        child, q = q, par.get(id(q))
+    return False
+
+
 def dynamic_oracle(p):
     """(3b) traced accesses vs the implementation's sets of the statement.  -> list of (kind, node id, key, name)."""
     obs = []
@@ -388,6 +406,8 @@ def check_cases(run, cases, workdir, label, stats):
                     stmt_units = set()
             for kind, nid, key, name in obs:
                 cls = class_of(name, hyp)
+                if cls is None and kind == 'read' and in_revisited_iterable(p, nid, name):
+                    cls = 'compIterRevisit'
                 if fr[5] and fr[2] and (nid, key) in stmt_units:
                     # the hypotheses of C08_dynamic_comp_lookup hold, yet a statement-level node misses an access
                     dis['thm-dynamic'].append({'source': c.src, 'observation': [kind, nid, key, name]})
